@@ -218,6 +218,8 @@ type SutRec struct {
 	// Annot lets the owner annotate enter/start events online (code size of the target,
 	// precompile flag, join-point switch) by reading the StateDB at that instant.
 	Annot func(e *Ev)
+	// OnStep is called for every instruction before it is logged (C20 budgets).
+	OnStep func(e *Ev)
 }
 
 var (
@@ -288,10 +290,9 @@ func (r *SutRec) CaptureExit(output []byte, gasUsed uint64, err error) {
 
 func (r *SutRec) step(k evKind, pc uint64, op byte, gas, cost uint64, stack []uint256.Int, mem []byte, rData []byte, depth int, err error,
 	self, codeAddr, caller common.Address) {
-	e := Ev{Ex: r.Ex, K: k, PC: pc, Op: op, Gas: gas, Cost: cost, Depth: depth, Err: errStr(err)}
+	e := Ev{Ex: r.Ex, K: k, PC: pc, Op: op, Gas: gas, Cost: cost, Depth: depth, Err: errStr(err), MemLen: len(mem)}
 	if !r.Light {
 		e.Stack = append([]uint256.Int{}, stack...)
-		e.MemLen = len(mem)
 		e.MemH = h64(mem)
 		e.RDataLen = len(rData)
 		e.RDataH = h64(rData)
@@ -302,6 +303,9 @@ func (r *SutRec) step(k evKind, pc uint64, op byte, gas, cost uint64, stack []ui
 		if len(rData) > 0 {
 			e.RData = cp(rData)
 		}
+	}
+	if r.OnStep != nil {
+		r.OnStep(&e)
 	}
 	r.L.Add(e)
 }
